@@ -1,7 +1,7 @@
 (* C04 - best trials are the best COMPLETED trials in order; direction is symmetric. Statements only. *)
 From Coq Require Import List ZArith QArith Bool Sorting.Sorted Sorting.Permutation.
 Import ListNotations.
-From KT Require Import Metrics MetricsProofs Lifecycle Best HB HBSym.
+From KT Require Import Metrics MetricsProofs Lifecycle Best HB HBSym LSym HBRun HBSymRun.
 Local Close Scope Q_scope.
 
 (* get_best_trials(n) returns min(n, #trials) trials *)
@@ -48,9 +48,30 @@ Example C04_example :
   map snd (best_trials fst snd true 9 ts) = [FPInf; FFin 3; FFin 3; FFin 1; FFin 0].
 Proof. vm_compute. split; reflexivity. Qed.
 
+(* direction symmetry of a WHOLE search, generic core: two oracles whose score functions differ by the sign of the objective and
+   whose populate_space functions cannot tell the two apart answer every request of any history identically *)
+Theorem C04_search_symmetric : forall (A V Sc : Type) (vdef : V) (neg : Sc -> Sc) (score1 score2 : V -> scored Sc),
+  (forall v, score2 v = sneg neg (score1 v)) ->
+  forall (pop1 pop2 : A -> list (trial V Sc) -> bool -> tid -> A * status * V),
+  (forall a ts b id, pop2 a (map (ntr neg) ts) b id = pop1 a ts b id) ->
+  forall (hook_end hook_end_abort : A -> tid -> V -> A) (hook_reload : A -> A) (reissue : V -> V) (c : cfg) (a : A) (ops : list (@op V)),
+  map fst (run vdef score2 pop2 hook_end hook_end_abort hook_reload reissue c (init a) ops)
+  = map fst (run vdef score1 pop1 hook_end hook_end_abort hook_reload reissue c (init a) ops).
+Proof. exact @search_sym. Qed.
+
+(* ... instantiated: the Hyperband oracle maximising s and the one minimising -s issue the same trials for every history
+   (random and grid search have no scores in their models at all: Sc = unit) *)
+Theorem C04_hyperband_search_symmetric : forall (V : Type) (h : hcfg) (vdef : V) (mk : hinfo -> V) (score_fn : V -> scored Z)
+  (reissue : V -> V) (c : cfg) (a : hstate) (ops : list (@op V)),
+  map fst (run vdef (fun v => sneg Z.opp (score_fn v)) (hpopulate (flip h) mk vdef) hk hk (fun a => a) reissue c (init a) ops)
+  = map fst (run vdef score_fn (hpopulate h mk vdef) hk hk (fun a => a) reissue c (init a) ops).
+Proof. exact @hyperband_search_sym. Qed.
+
 Print Assumptions C04_length.
 Print Assumptions C04_completed_first.
 Print Assumptions C04_sorted.
 Print Assumptions C04_left_out.
 Print Assumptions C04_ranking_symmetric.
 Print Assumptions C04_hyperband_symmetric.
+Print Assumptions C04_search_symmetric.
+Print Assumptions C04_hyperband_search_symmetric.
